@@ -121,6 +121,7 @@ class Run:
         self.invocations = []
         self.pending_deferreds = []
         self.current_plan = {}
+        self.decoy_callers = []
 
     def build_exporter_class(self):
         sc = self.sc
@@ -209,6 +210,30 @@ class Run:
                 ctx.report('name-request', 'exporter could not acquire its well-known name: %r' % out.results, w, case)
                 return False
             dest = WELL_KNOWN
+        if sc.idx % 4 == 1:
+            # another class on the exporting client implements the same interface members, asking for the caller's name
+            # (dbusCaller), and is called first: what the library learns about that implementation must not be applied
+            # to the scripted one
+            dattrs = {'dbusInterfaces': [sc.interface()]}
+            for m, spec in sc.methods.items():
+                nargs = len(G.split_signature(spec['in']))
+                src = 'def dbus_%s(%s):\n    _seen.append(dbusCaller)\n' % (
+                    m, ', '.join(['self'] + ['a%d' % i for i in range(nargs)] + ['dbusCaller=None']))
+                ns = {'_seen': self.decoy_callers}
+                exec(src, ns)
+                dattrs['dbus_' + m] = ns['dbus_' + m]
+            exporter.conn.exportObject(type('Decoy%d' % sc.idx, (O.DBusObject,), dattrs)('/decoy'))
+            first = next((c_ for c_ in sc.calls if c_['which'] == 1), None)
+            if first is not None:
+                clientfix.Outcome(callers[first['caller']].conn.callRemote(
+                    '/decoy', first['method'], interface=sc.iface_name, destination=dest,
+                    signature=first['spec']['in'], body=first['args']))
+                busnet.pump(net)
+                ctx.count('decoy_implementation_called_first')
+                if self.decoy_callers and self.decoy_callers[-1] != callers[first['caller']].conn.busName:
+                    ctx.report('caller-name', 'an implementation asking for dbusCaller got %r, the calling client is %r' % (
+                        self.decoy_callers[-1], callers[first['caller']].conn.busName), w, case)
+                    return False
         if sc.methods2 and sc.idx % 2 and 'introspect' in sc.proxy_mode:
             # the calling process already knows the exporter's FIRST interface (same definition, registered) but not the
             # second: introspection reuses the known one and must still learn the other completely
